@@ -224,11 +224,220 @@ def oracle_lsm_seq(c, obs):
     return out
 
 
+# --------------------------------------------------------------------------- family: LSM, overlapping operations in a real Simulation
+US = 1000  # ns
+
+
+def gen_lsm_conc(rng):
+    nkeys = rng.choice([2, 3, 4])
+    cfg = gen_cfg(rng)
+    if rng.random() < 0.6:
+        cfg["thr"] = rng.choice([1, 1, 2])
+    n = rng.randint(4, 22)
+    t = 0
+    ops = []
+    gaps = [0, 5 * US, 10 * US, 500 * US, 1000 * US, 1990 * US, 2000 * US, 2010 * US, 2500 * US, 4020 * US]
+    wts = [2, 2, 2, 3, 3, 1, 2, 2, 2, 1]
+    for o in gen_ops(rng, n, nkeys):
+        t += rng.choices(gaps, wts)[0]
+        ops.append([t, o])
+    for i, (t, o) in enumerate(ops):
+        if o[0] == "put":
+            o[2] = 100 + i          # every write has its own value
+    return dict(cfg=cfg, nkeys=nkeys, ops=ops)
+
+
+def ns_of(d):
+    return round(d * 1e9)
+
+
+def run_lsm_sim(c, make_wal=None):
+    """Run the workload inside a real Simulation; returns the segment log
+    [kind, oid, t_ns, payload, snapshot] and the flush/compaction windows."""
+    from happysimulator.components.storage.lsm_tree import LSMTree
+    from happysimulator.core.entity import Entity
+    from happysimulator.core.event import Event
+    from happysimulator.core.simulation import Simulation
+    from happysimulator.core.temporal import Instant
+    from hsverif.util import run_bounded
+
+    cf = c["cfg"]
+    lsm = LSMTree("db", memtable_size=cf["thr"], compaction_strategy=make_strategy(cf["strategy"]), max_levels=cf["nlev"])
+    log, windows = [], []
+
+    class Worker(Entity):
+        def handle_event(self, event):
+            op, oid = event.context["op"], event.context["oid"]
+            if op[0] == "put":
+                g = lsm.put(kname(op[1]), op[2])
+            elif op[0] == "del":
+                g = lsm.delete(kname(op[1]))
+            elif op[0] == "get":
+                g = lsm.get(kname(op[1]))
+            else:
+                g = lsm.scan(kname(op[1]), kname(op[2]))
+            first = True
+            while True:
+                kind = "start" if first else "resume"
+                first = False
+                t = self.now.nanoseconds
+                try:
+                    d = next(g)
+                except StopIteration as e:
+                    r = e.value
+                    if op[0] == "scan":
+                        r = [[kid(k), v] for k, v in r]
+                    log.append([kind, oid, t, ["done", r], lsm_snapshot(lsm)])
+                    return
+                log.append([kind, oid, t, ["yield", ns_of(d)], lsm_snapshot(lsm)])
+                yield d
+
+    w = Worker("w")
+
+    def traced(name, orig):
+        def gen():
+            rec = [name, w.now.nanoseconds, None]
+            windows.append(rec)
+            r = yield from orig()
+            rec[2] = w.now.nanoseconds
+            return r
+        return gen
+    lsm._compact = traced("compact", lsm._compact)
+    lsm._flush_memtable = traced("flush", lsm._flush_memtable)
+    sim = Simulation(end_time=Instant.from_seconds(1000), entities=[lsm, w])
+    for i, (t, op) in enumerate(c["ops"]):
+        sim.schedule(Event(time=Instant(t), event_type="op", target=w, context={"op": op, "oid": i}))
+    _, verdict = run_bounded(sim)
+    return dict(log=log, windows=windows, verdict=verdict, fps=bloom_fps(c["nkeys"]))
+
+
+def impl_lsm_conc(c):
+    return run_lsm_sim(c)
+
+
+def csnap_term(s):
+    return (table_term(s["mem"]), [table_term(t) for t in s["imm"]],
+            [[table_term(t) for t in lvl] for lvl in s["levels"]], s["ncomp"], s["nflush"])
+
+
+def encode_lsm_conc(c, obs):
+    steps = []
+    for kind, oid, t, payload, snap in obs["log"]:
+        op = c["ops"][oid][1]
+        st = Ctor("SStart", oid, op_term(op)) if kind == "start" else Ctor("SResume", oid)
+        ob = Ctor("OYield", payload[1]) if payload[0] == "yield" else Ctor("ODone", out_term(op, payload[1]))
+        steps.append((st, ob, csnap_term(snap)))
+    return term((cfg_term(c["cfg"]), [(ks, k) for ks, k in obs["fps"]], steps))
+
+
+def intervals(c, log):
+    """oid -> [start_ns, done_ns | None, result]"""
+    iv = {}
+    for kind, oid, t, payload, _ in log:
+        if kind == "start":
+            iv[oid] = [t, None, None]
+        if payload[0] == "done":
+            iv[oid][1] = t
+            iv[oid][2] = payload[1]
+    return iv
+
+
+def allowed_values(writes, rs, re):
+    """Values a read of one key over [rs, re] may return.  writes: [start, done|None, value|None(delete)].
+    A write is admissible when it began no later than the read ended and no other write to the key
+    lies entirely after it and entirely before the read; the initial absence likewise."""
+    done_before = [w for w in writes if w[1] is not None and w[1] < rs]
+    out = []
+    if not done_before:
+        out.append(None)
+    for w in writes:
+        if w[0] > re:
+            continue
+        if w[1] is not None and any(x[0] > w[1] for x in done_before):
+            continue
+        out.append(w[2])
+    return out
+
+
+def conc_oracle(c, obs, what):
+    iv = intervals(c, obs["log"])
+    fails = []
+    if obs["verdict"] != "ok":
+        return [dict(clause=f"{what}: run terminates", verdict=obs["verdict"])]
+    by_key = {}
+    for oid, (t, o) in enumerate(c["ops"]):
+        if oid in iv and o[0] in ("put", "del"):
+            by_key.setdefault(o[1], []).append([iv[oid][0], iv[oid][1], o[2] if o[0] == "put" else None])
+    for oid, (t, o) in enumerate(c["ops"]):
+        if oid not in iv or iv[oid][1] is None:
+            fails.append(dict(clause=f"{what}: every operation completes", oid=oid, op=o))
+            continue
+        rs, re, r = iv[oid]
+        if o[0] == "get":
+            ok = allowed_values(by_key.get(o[1], []), rs, re)
+            if r not in ok:
+                deleted = None in ok and all(x is None for x in ok)
+                fails.append(dict(clause=f"{what}: deleted keys stay deleted" if deleted else f"{what}: read returns the latest completed or a concurrent write",
+                                  oid=oid, op=o, got=r, allowed=ok, interval=[rs, re]))
+        elif o[0] == "scan":
+            got = {k: v for k, v in r}
+            if [k for k, _ in r] != sorted(got):
+                fails.append(dict(clause=f"{what}: scan is sorted", oid=oid, op=o, got=r))
+            for k in range(o[1], o[2]):
+                ok = allowed_values(by_key.get(k, []), rs, re)
+                if got.get(k) not in ok:
+                    fails.append(dict(clause=f"{what}: scan returns exactly the live keys of the range", oid=oid, op=o, key=k,
+                                      got=got.get(k), allowed=ok, interval=[rs, re]))
+                    break
+            if any(k < o[1] or k >= o[2] for k in got):
+                fails.append(dict(clause=f"{what}: scan stays inside the range", oid=oid, op=o, got=r))
+    return fails
+
+
+def oracle_lsm_conc(c, obs):
+    fails = conc_oracle(c, obs, "lsm")
+    wins = [w for w in obs["windows"] if w[2] is not None]
+    comp = [w for w in wins if w[0] == "compact" and w[2] > w[1]]
+    for f in fails:
+        if "interval" in f:
+            rs, re = f["interval"]
+            if any(rs <= w[2] <= re for w in comp):
+                f["mechanism"] = "read-overlaps-compaction-end"
+                f["what"] = ("LSM get/scan suspended inside its level iteration while a compaction removes the tables it "
+                             "iterates over: entries are missed or read from a stale table")
+            elif any(w[1] <= re and x is not w and
+                     (w[1] <= x[2] <= w[2] or (x[0] == "compact" and w[1] <= x[1] <= w[2]))
+                     for w in comp for x in wins):
+                f["mechanism"] = "compaction-not-isolated"
+                f["what"] = ("a flush install or a second compaction falls inside a compaction's write delay: the compaction then "
+                             "installs a table computed from stale sources (older value shadows a newer one, dropped tombstone resurrects a deleted key)")
+    return fails[:3]
+
+
+def attribute_lsm_conc(c, obs, f):
+    return {"read-overlaps-compaction-end": "C14-lsm-read-overlaps-compaction",
+            "compaction-not-isolated": "C14-lsm-compaction-not-isolated"}.get(f.get("mechanism"))
+
+
+def nontrivial_conc(c, obs):
+    # some read overlaps a flush or compaction window
+    iv = intervals(c, obs["log"])
+    for oid, (t, o) in enumerate(c["ops"]):
+        if o[0] in ("get", "scan") and oid in iv and iv[oid][1] is not None:
+            if any(w[2] is not None and w[1] <= iv[oid][1] and iv[oid][0] <= w[2] for w in obs["windows"]):
+                return True
+    return False
+
+
 FAMILIES = [
     Family("lsm_seq", IMPORTS, "ok_lsm_seq", "cfg * list (list Z * Z) * list (op * out * snap)",
            gen_lsm_seq, impl_lsm_seq, encode_lsm_seq, oracle_lsm_seq,
            nontrivial=lambda c, o: o["snaps"][-1]["ncomp"] >= 2 and any(x[0] == "del" for x in c["ops"]),
            describe=lambda c: f"{c['cfg']['strategy'][0]},nlev={c['cfg']['nlev']},thr={c['cfg']['thr']}"),
+    Family("lsm_conc", IMPORTS, "ok_lsm_conc", "cfg * list (list Z * Z) * list (sched_step * obs * csnap)",
+           gen_lsm_conc, impl_lsm_conc, encode_lsm_conc, oracle_lsm_conc, nontrivial=nontrivial_conc,
+           attribute=attribute_lsm_conc, parallel=True,
+           describe=lambda c: f"{c['cfg']['strategy'][0]},nlev={c['cfg']['nlev']}"),
 ]
 
 TRUSTED = [
@@ -240,7 +449,7 @@ TRUSTED = [
     "the level list has fixed length max_levels",
 ]
 
-PROOF_FILES = ["C14/Model.v", "C14/LsmProofs.v", "C14/Props.v"]
+PROOF_FILES = ["C14/Model.v", "C14/LsmProofs.v", "C14/ConcProofs.v", "C14/Props.v"]
 
 
 class Sharded:
@@ -261,7 +470,8 @@ class Sharded:
 def run(ctx):
     ctx.prove(PROOF_FILES, allowed_axioms=(), trusted_base=TRUSTED)
     sctx = Sharded(ctx, 40)
-    stats = [run_family(sctx, FAMILIES[0], ctx.n(300, 6000))]
+    stats = [run_family(sctx, FAMILIES[0], ctx.n(300, 6000)),
+             run_family(Sharded(ctx, 25), FAMILIES[1], ctx.n(300, 6000))]
     merge_stats(ctx, stats, "random workloads over 3-6 keys, memtable size 1-4, 1-4 levels, three strategies; "
                             "non-trivial = at least two compactions and a delete; distinct by JSON of the input")
     ctx.finish_obligations()
